@@ -155,8 +155,13 @@ def r_add_pair(ctx):
             sset = unmut(ins_s[0].d["args"][0])
             ok_s = unmut(ins_s[0].d["args"][1]) == tid and any(is_call_to(t, lambda s: s == HM + "entry") and t[2][0] == self_field(roles["ids"]) and t[2][1] == h for t in subterms(sset))
             obs.append(Ob("R-ADD-PAIR", fn, "id set of that hash gains tile_id", ok_s, "set = %s" % tstr(sset)[:120], ins_s[0].loc()))
-            ok_rm = len(rm) == 1 and rm[0].seq < ins_t[0].seq and unmut(rm[0].d["args"][1]) == tid
-            obs.append(Ob("R-ADD-PAIR", fn, "previous binding of tile_id removed first", ok_rm, "remove calls before the inserts: %d" % len(rm), rel(f["loc"])))
+            first_ins = min(ins_t[0].seq, ins_d[0].seq, ins_s[0].seq)
+            entry_calls = [e for e in p.events if e.kind == "call" and e.d["fn"] in (HM + "entry", HM + "get_mut") and unmut(e.d["args"][0]) == self_field(roles["ids"])]
+            if entry_calls:
+                first_ins = min(first_ins, entry_calls[0].seq)
+            ok_rm = len(rm) == 1 and rm[0].seq < first_ins and unmut(rm[0].d["args"][1]) == tid
+            obs.append(Ob("R-ADD-PAIR", fn, "previous binding of tile_id removed first", ok_rm,
+                          "remove calls: %d; the removal must precede all three registrations (a later removal strips the id that was just registered when the content is unchanged)" % len(rm), rel(f["loc"])))
             content_ok = is_call_to(content, lambda s: s.endswith("::into")) and content[2][0] == V("param:data") or content == V("param:data")
             obs.append(Ob("R-ADD-PAIR", fn, "stored bytes = the content passed in", bool(content_ok), "stored %s" % tstr(content)[:80], ins_d[0].loc()))
     return obs
